@@ -420,7 +420,10 @@ func (s *ProofStructure) VerifyProofStructure(g *gabikeys.PublicKey, p *Proof) b
 			return false
 		}
 
-		if p.Cs[i].BitLen() > g.N.BitLen() ||
+		// The commitments have to be nonzero residues: for C_i = 0 mod n every commitment
+		// reconstructed from the proof is 0 whatever the responses are, so that the challenge could
+		// be computed without knowing a representation of anything.
+		if p.Cs[i].Sign() <= 0 || p.Cs[i].Cmp(g.N) >= 0 ||
 			uint(p.DResponses[i].BitLen()) > s.ld+g.Params.Lh+g.Params.Lstatzk+1 ||
 			uint(p.VResponses[i].BitLen()) > g.Params.Lm+g.Params.Lh+g.Params.Lstatzk+1 {
 			return false
